@@ -75,6 +75,8 @@ def failing_keys(props, d, tag, cfgs):
 
 
 def run_one(entry, slot, cfgs, baseline):
+    if not KNOWN_LIMITS:
+        load_catalogue()        # a worker process starts without the catalogue's known-limit table
     kind, mid, props, edits, expect = entry
     tag = "-st%d" % slot
     d = make_scratch(mid)
@@ -134,10 +136,13 @@ def run(prop=None, ident=None, jobs=6, cfgs=("default", "nodefault"), quiet=Fals
     allprops = sorted(set(p for e in entries for p in e[2]))
     base = baseline_failures(allprops, cfgs)
     results = []
-    with ThreadPoolExecutor(max_workers=jobs) as ex:
+    # worker *processes*: the analyses are CPU-bound Python (threads would share one core)
+    from concurrent.futures import ProcessPoolExecutor
+    pool = ProcessPoolExecutor if jobs > 1 and not os.environ.get("MQ_SELFTEST_THREADS") else ThreadPoolExecutor
+    with pool(max_workers=jobs) as ex:
         futs = []
         for i, e in enumerate(entries):
-            futs.append(ex.submit(run_one, e, i % jobs, cfgs, base))
+            futs.append(ex.submit(run_one, e, i, cfgs, base))
         for fu in futs:
             r = fu.result()
             results.append(r)
